@@ -14,6 +14,10 @@ import (
 type Visit struct {
 	Pkg   string `json:"pkg"`
 	Files []int  `json:"files"`
+	// DeclSeed != 0: the non-import top-level declarations of every visited
+	// file are delivered in a permuted order (same nodes, no re-parse); the
+	// reference model sees the same permuted file.
+	DeclSeed uint64 `json:"decl_seed,omitempty"`
 }
 
 // Variant is one (map policy, schedule) pair under which a workload is executed.
